@@ -65,6 +65,18 @@ CHECKS['C11'] = dict(technique='runtime monitoring: reference-model oracle (inde
                   'valuations and compared with the model; (c) compiled as `const X = e; f(X)` and as `f(e)` through the CLI and compared bytewise.',
              note='Float->int casts out of range and NaN payloads unjudged; transcendental functions within 2 ulp; python float arithmetic rounded to binary32 per operation is exact for + - * / sqrt fmod.',
              design='3/C11')
+CHECKS['C09'] = dict(technique='runtime monitoring: generator-as-reference-typer oracle over well-typed programs and single-point type mutations; static-vs-dynamic type monitor',
+             text='Exploration. Bodies generated from the documented typing rules must be accepted by the real type_check pass; for each, one typed expression slot at a random position (any block depth, any '
+                  'statement kind: operands, conditions, counts, initialisers, arguments, switch cases, ternary branches) is replaced by an expression of another type and must be rejected, plus a fixed list of '
+                  'ill-typed statements wrapped in every kind of nested block; for accepted bodies every assignment RHS subexpression is evaluated (AstVm::eval) and its value type compared with compute_ty.',
+             note='The generator is the reference typer (well-typed by construction, ill-typed by the single injected fault). The debug_assert_eq!(check_expr, compute_ty) in the dev build is an extra in-code monitor.',
+             design='3/C09')
+CHECKS['C10'] = dict(technique='runtime monitoring: reference-model oracle (independent scope model) over the resolver\'s def-equivalence classes; metamorphic renaming oracle on compiled bytes',
+             text='Exploration. Scope trees over a pool of 4 variable / 2 function names (+ aliases of this and another language) are resolved by the real resolver; the partition of identifier occurrences by '
+                  'definition (read from the make_idents_unique rendering, in text order) must equal the partition computed by an independent model, programs with a model-detected error must be rejected, and '
+                  'consistently renamed programs must resolve to the same partition and (for function-free programs, through the ANM CLI pipeline) compile to identical bytes.',
+             note='Undocumented combinations are not generated (local+const of one name in one block, local named like a parameter in the body block, name used in its own initialiser, arity mismatches).',
+             design='3/C10')
 WIP = {}  # property -> reason (not claimed)
 
 def main():
